@@ -18,6 +18,7 @@ for f in kf:
         out.append("| %s | `%s` | %s | %s | %s |\n" % (f["property"], f["signature"], f["what_fails"].replace("|", "/"), f.get("replay", "(probe plan in the enumerated prefix / hit in random runs)"), f.get("why_not_fixed", "repair is not a small behaviour-preserving patch").replace("|", "/")))
 out.append("\n" + rd("tools/design_false_alarms.md"))
 out.append("\n" + rd("tools/design_soundness.md"))
+out.append("\n" + rd("tools/design_reach.md"))
 out.append("\n## 7. Seeded breakage: which check catches which change\n\n" + rd("tools/design_seeded_intro.md"))
 out.append("\n### 7.1 Changes written by independent sub-agents (given only the property text)\n\n| id | property | what it breaks | what it needs to manifest | quick check | signatures |\n|---|---|---|---|---|---|\n")
 for mf in sorted(glob.glob(os.path.join(root, "seeded", "*", "meta.json"))):
